@@ -359,6 +359,7 @@ def run(ctx, chk, tier):
     c01.constructor_sorted(ctx, chk)   # samples built with is_sorted=False rely on the constructor's sort
     # ---------------- R11.3 count algebra of _sample_indices
     count_algebra(ctx, chk)
+    draw_parameters(ctx, chk)
     # ---------------- R11.4 duality
     total_pairs = 0
     for q in (SI, BS, GROUP + ".bootstrap_sample", SCORES + "._sampling_method", GROUP + "._sampling_method"):
@@ -484,6 +485,86 @@ def count_algebra(ctx, chk):
                         chk.violation("R11.3", SI, "total:path[%s]" % pc_text(o)[:160], show(tot, 260), show(ALLN, 100) + " (replacement sampling preserves the total count)", ctx.where(SI))
             if n == 0:
                 chk.unknown("R11.3", "_sample_indices(by_label=%s): no return path analysed" % by_label)
+    finally:
+        ev.merge_ifs = True
+        ev.assume = []
+
+
+def draw_parameters(ctx, chk):
+    """R11.9 the random sizes are drawn with the source's own proportions (necessary for 'expected class and stratum sizes equal the
+    source's'): without stratification the class size is binomial(nb_all_samples, nb_all_pos / nb_all_samples) and the easy / hard split of
+    a class is binomial(class size, easy ratio of that class); single-pass multiplicities are drawn per hard score with p = 1 / (number of
+    hard scores of the class).  With by_label no size is random at all: the easy counts come back as declared and no draw is parametrised
+    by the total or by a class / easy proportion."""
+    from ..terms import div
+    from ..terms import same as _same
+    ev = ctx.ev
+    ev.merge_ifs = False
+    ev.assume = [compare(">", HP, Const(0)), compare(">", HN, Const(0))]
+    pos_ratio = div(add(EP, HP), ALLN)
+    easy_p = sub(Const(1), div(HP, add(EP, HP)))
+    easy_n = sub(Const(1), div(HN, add(EN, HN)))
+
+    def plain(p_):
+        # `x / n if n > 0 else 0.0` under the standing assumption of two non-empty classes
+        while isinstance(p_, _A) and p_.fn == "ite" and len(p_.args) == 3:
+            p_ = p_.args[1]
+        return p_
+    try:
+        for by_label in (False, True):
+            for single_pass in (False, True):
+                tag = "by_label=%s,single_pass=%s" % (by_label, single_pass)
+                try:
+                    outs = ctx.explore(lambda: ev.call(ctx.method(ctx.scores_obj("pos", "pos"), "_sample_indices"), [], {"by_label": Const(by_label), "single_pass": Const(single_pass)}), chk, max_paths=1500)
+                except Exception as e:  # noqa: BLE001
+                    chk.unknown("R11.9", "%s: %s" % (tag, str(e)[:120]))
+                    continue
+                bad, n = None, 0
+                for o in outs:
+                    if o.kind != "return":
+                        continue
+                    n += 1
+                    from .c09 import zero_facts
+                    z = zero_facts(o.pc)     # easy counts that this path knows to be zero
+
+                    def same(a_, b_, _z=z):   # noqa: F811  (comparison modulo the path's zero facts)
+                        return a_ is not None and b_ is not None and _same(subst(a_, _z), subst(b_, _z))
+                    sized = [e for e in o.events if e["kind"] == "rng" and e["fn"] in ("binomial", "poisson") and "size" not in e["kwargs"]]
+                    multi = [e for e in o.events if e["kind"] == "rng" and e["fn"] in ("binomial", "poisson") and "size" in e["kwargs"]]
+                    if by_label:
+                        if sized:
+                            bad = bad or ("a random size is drawn although the strata are fixed: %s(n=%s, p=%s)" % (sized[0]["fn"], show(sized[0]["kwargs"].get("n"), 60), show(sized[0]["kwargs"].get("p"), 60)),
+                                          "no size draw with by_label (all four stratum sizes are the source's)")
+                        if isinstance(o.value, Tup) and len(o.value.items) == 4 and not (same(o.value.items[2], EP) and same(o.value.items[3], EN)):
+                            bad = bad or ("easy counts (%s, %s)" % (show(o.value.items[2], 60), show(o.value.items[3], 60)), "(Ep, En) as declared")
+                    else:
+                        if len(sized) < 3:
+                            bad = bad or ("%d size draws" % len(sized), "class size, easy positives, easy negatives")
+                        else:
+                            c0, c1, c2 = sized[0]["kwargs"], sized[1]["kwargs"], sized[2]["kwargs"]
+                            if not (same(c0.get("n"), ALLN) and same(plain(c0.get("p")), pos_ratio)):
+                                bad = bad or ("class size ~ binomial(n=%s, p=%s)" % (show(c0.get("n"), 60), show(plain(c0.get("p")), 100)), "binomial(nb_all_samples, nb_all_pos / nb_all_samples)")
+                            if not same(plain(c1.get("p")), easy_p):
+                                bad = bad or ("easy positives ~ p=%s" % show(plain(c1.get("p")), 100), "easy_pos_ratio = nb_easy_pos / nb_all_pos")
+                            if not same(plain(c2.get("p")), easy_n):
+                                bad = bad or ("easy negatives ~ p=%s" % show(plain(c2.get("p")), 100), "easy_neg_ratio = nb_easy_neg / nb_all_neg")
+                    if single_pass:
+                        want = {(HP.key): div(Const(1), HP), (HN.key): div(Const(1), HN)}
+                        for e in multi:
+                            sz = e["kwargs"].get("size")
+                            pexp = want.get(sz.key) if sz is not None else None
+                            pv = e["kwargs"].get("p")
+                            lam = e["kwargs"].get("lam")
+                            if pexp is None or (pv is not None and not same(pv, pexp)):
+                                bad = bad or ("multiplicities ~ %s(size=%s, p=%s)" % (e["fn"], show(sz, 40), show(pv, 60)), "one draw per hard score of the class with p = 1 / (number of hard scores)")
+                        if len(multi) < 2:
+                            bad = bad or ("%d multiplicity draws" % len(multi), "one per class")
+                if n == 0:
+                    chk.unknown("R11.9", "%s: no return path" % tag)
+                elif bad:
+                    chk.violation("R11.9", SI, tag, bad[0], bad[1], ctx.where(SI))
+                else:
+                    chk.hold("R11.9", tag, "draw parameters are the source's proportions on %d path(s)" % n)
     finally:
         ev.merge_ifs = True
         ev.assume = []
